@@ -160,13 +160,15 @@ impl Property for C19 {
         if family == 2 {
             // in-range but unusual: an odd dictionary size and a repetition just inside it, so
             // that a header which rounds the dictionary the wrong way makes the stream undecodable
-            return (4097u32..70_000, 0u32..300, any::<u64>(), 0u8..2, 0u8..2, writer_strategy())
+            return (4097u32..70_000, prop_oneof![3 => 0u32..4, 2 => 0u32..300], any::<u64>(), 0u8..2, 0u8..2, writer_strategy())
                 .prop_map(|(dict, k, seed, mode, mf, writer)| {
                     let mut opts = base_opts();
                     opts.dict_size = dict;
                     opts.mode = mode;
                     opts.mf = mf;
-                    let d = dict - k.min(dict - 1);
+                    // repetition at distance dict + 1 - k: one byte outside the dictionary (must not be used), exactly
+                    // at its edge, and just inside
+                    let d = dict + 1 - k.min(dict);
                     let writer = match writer {
                         Writer::Xz { check, block, .. } => Writer::Xz { check, block, filters: vec![] },
                         w => w,
